@@ -287,9 +287,13 @@ def c_bytes_opt(b: bytes | None) -> str:
 CODEC_ID = {"zstd": 1, "gzip": 2, "identity": 3}
 
 
-def classify_error(err: dict[str, Any], validated: list[str], rejected: list[int] | None = None) -> list[int]:
+def classify_error(err: dict[str, Any], validated: list[str], rejected: list[int] | None = None, rejections: list[str] | None = None) -> list[int]:
     t, s = err["type"], err["str"]
     if t == "ValueError" and s.startswith("ExternalLocation URL rejected:"):
+        tag = re.search(r"\[refusal #(\d+)\]", s)
+        if tag and rejections is not None and int(tag.group(1)) < len(rejections):
+            u = rejections[int(tag.group(1))]
+            return [1, POOL.index(u) if u in POOL else 999]
         rej = {POOL[i] for i in (rejected or [])}
         cands = list(dict.fromkeys(u for u in validated if u in rej)) or validated[-1:]
         if len(cands) > 1:
@@ -349,7 +353,7 @@ def serialize_obs(obs: dict[str, Any]) -> list[int]:
         d = obs["result"]
         out += [0, len(d), *d]
     else:
-        out += classify_error(obs["error"], obs["validated"], obs.get("rejected"))
+        out += classify_error(obs["error"], obs["validated"], obs.get("rejected"), obs.get("rejections"))
     out.append(len(obs["attempts"]))
     for att in obs["attempts"]:
         out += ser_sobs(att["seqs"].get("probe"))
